@@ -127,6 +127,12 @@ def plan(tier):
                           ctx_list=['return', 'nested-def']),
                  bounds='outer with <=1 named parameter (positional-only included) x routes self / param-partial x return / nested def',
                  min_nontrivial=100),
+            dict(name='deferred-call-arguments', fn='h_sound', depth=8, budget_s=180,
+                 cfg=dict(groups=['full'], Ko=0, Kc=1, kmax=1, nmax=0, form_list=['pristine'], route_list=['global'],
+                          ctx_list=['nested-def', 'lambda', 'listcomp', 'genexp', 'nested-shadow-va-posonly',
+                                    'nested-shadow-kw-kwonly']),
+                 bounds='5 argument expressions (constant, kwargs.pop, hand-off, len(args), walrus) as the fixed positional of a call deferred into a nested def / lambda / comprehension (6 contexts), pristine stars, callee <=1 named',
+                 min_nontrivial=100),
         ]
     return [
         dict(name='grammar-thorough', fn='h_sound', depth=12, budget_s=3300, cfg=_c06.THOROUGH,
